@@ -16,6 +16,7 @@ pub mod c04;
 pub mod c05;
 pub mod c06;
 pub mod c07;
+pub mod c08;
 pub mod c16;
 
 /// (n1, n2, m, padded N) of a statement, by symbolic execution on RefCS.
@@ -100,7 +101,9 @@ pub fn sample_of(case: &SessionCase) -> Value {
     })
 }
 
-pub const ALL: &[&str] = &["C01", "C02", "C03", "C04", "C05", "C06", "C07", "C16"];
+/// checks that run in a child process under an address-space limit
+pub const ISOLATED: &[&str] = &["C08", "C11"];
+pub const ALL: &[&str] = &["C01", "C02", "C03", "C04", "C05", "C06", "C07", "C08", "C16"];
 
 /// Case-count scaling (selftest runs a small slice of every check).
 pub fn scaled(n: u64) -> u64 {
@@ -119,6 +122,7 @@ pub fn dispatch(prop: &str, ctx: &Ctx) -> Option<i32> {
         "C05" => Some(c05::run(ctx)),
         "C06" => Some(c06::run(ctx)),
         "C07" => Some(c07::run(ctx)),
+        "C08" => Some(c08::run(ctx)),
         "C16" => Some(c16::run(ctx)),
         _ => None,
     }
@@ -133,6 +137,7 @@ pub fn replay(prop: &str, case: &Value) -> Option<Vec<Violation>> {
         "C05" => Some(c05::replay(case)),
         "C06" => Some(c06::replay(case)),
         "C07" => Some(c07::replay(case)),
+        "C08" => Some(c08::replay(case)),
         "C16" => Some(c16::replay(case)),
         _ => None,
     }
